@@ -61,7 +61,7 @@ def run_driver(prog, rep, rule="C01.D"):
                    "match, locals are cleared per match and the statements of a block run in order, each exactly once")
     n = 0
     # strict: File::try_visit_matches_strict
-    for f in [x for x in prog.fns.values() if x.name == "try_visit_matches_strict" and x.self_path == "tsg::ast::File"]:
+    for f in [x for x in prog.shape_fns() if x.name == "try_visit_matches_strict" and x.self_path == "tsg::ast::File"]:
         body, tr = f.body, Tracer(f.body)
         loops = forward_loops(body, tr, r"arg:self\.stanzas$")
         key = "%s :: stanzas in file order" % f.id
@@ -77,7 +77,7 @@ def run_driver(prog, rep, rule="C01.D"):
             ok, msg = once_per_iteration(body, h, bl, calls)
             rep.check(ok, rule, key, f.loc(), "for stanza in &self.stanzas: " + msg, "per-stanza visit: " + msg)
     # strict: Stanza::try_visit_matches_strict ; lazy: File::try_visit_matches_lazy
-    for f in [x for x in prog.fns.values() if (x.name == "try_visit_matches_strict" and x.self_path == "tsg::ast::Stanza") or x.name == "try_visit_matches_lazy"]:
+    for f in [x for x in prog.shape_fns() if (x.name == "try_visit_matches_strict" and x.self_path == "tsg::ast::Stanza") or x.name == "try_visit_matches_lazy"]:
         body, tr = f.body, Tracer(f.body)
         key = "%s :: once per match" % f.id
         n += 1
